@@ -126,14 +126,14 @@ def int_to_digitstr_cases(ex, val, st, width=0, max_digits=45):
     out = []
     vt = V.z3int(val)
     cur = st
-    neg, cur = ex.split(vt < 0, cur)
+    neg, cur = ex.split(vt < 0, cur, strong=True)
     if neg is not None:
         raise Unsupported("digit string of a possibly negative integer")
     for k in range(max(1, width), max_digits + 1):
         if cur is None:
             break
         hi = 10 ** k
-        t, cur = ex.split(vt < hi, cur)
+        t, cur = ex.split(vt < hi, cur, strong=True)
         if t is not None:
             out.append(Val(DigitStr(max(k, width), val), t))
     if cur is not None:
